@@ -60,4 +60,10 @@ theorem tr_RecordsInfo_ApplyTs_eq (ri : RecordsInfo_ApplyTs_ri) (ts : Int64) :
 
 example : RecordsInfo_ApplyTs { MinTs := 5, MaxTs := 9 } 2 = .ok { MinTs := 2, MaxTs := 9 } := by decide +kernel
 
+/-- `(*chkInfo).makeCorrupted()`: the flag is set and the tree root is forgotten (the zero `Item`) — what C02's
+`CIndex.onWrite` writes as `{ c with corrupted := true, root := none }` -/
+theorem tr_chkInfo_makeCorrupted_eq (ci : chkInfo_makeCorrupted_ci) :
+    ∃ ci', chkInfo_makeCorrupted ci = .ok ci' ∧ ci'.idxCorrupted = true ∧ ci'.IdxRoot = { IndexId := 0, Pos := 0 } :=
+  ⟨_, rfl, rfl, rfl⟩
+
 end Logrange.Props.TRTmindex
